@@ -95,6 +95,11 @@ def _atomic(e):
     return False
 
 
+def _inst_term(d, term, actual_params):
+    pairs = list(zip(d["params"], actual_params))
+    return z3.substitute(term, *pairs) if pairs else term
+
+
 PERIODS = {}
 
 
@@ -274,6 +279,19 @@ def congruence_lemmas(dom, hyps, exprs, max_rounds=6):
                 else:
                     neq = z3.Or(ra != rb, ima != imb)
                     same = dom.quick_unsat(list(hyps) + lemmas + [occ, neq], timeout_ms=2500)
+                if not same and da["kind"] == "total" and da.get("meta") and db.get("meta"):
+                    # re-indexing: sum_j s(j) = sum_j t(j) when t(j + c) = s(j) for all j  (c = difference of
+                    # the lower bounds); both are sums over all integers of finitely supported sequences
+                    b = BOUNDS[la]
+                    for end in ("lo", "hi"):
+                        ea = _inst_term(da, da["meta"][end], pa)
+                        eb = _inst_term(db, db["meta"][end], pb)
+                        c = eb - ea
+                        rb2 = z3.substitute(rb, (b, b + c))
+                        imb2 = z3.substitute(imb, (b, b + c))
+                        same = dom.quick_unsat(list(hyps) + lemmas + [occ, z3.Or(ra != rb2, ima != imb2)], timeout_ms=2500)
+                        if same:
+                            break
                 if not same:
                     failed[key] = len(lemmas)
                     continue
